@@ -1307,7 +1307,7 @@ def compile_match_expression(compiler, expr, root, subject, clauses):
 
         pattern = compile_pattern(compiler, pattern)
 
-        if guard:
+        if guard is not None:
             guard = compiler.compile(guard)
             if guard.stmts:
                 fname = compiler.get_anon_var()
